@@ -8,6 +8,7 @@ package explore
 
 import (
 	"fmt"
+	"os"
 	"runtime"
 	"runtime/debug"
 	"sort"
@@ -376,6 +377,16 @@ func (s *Scenario) Explore() *Stats {
 			mu.Unlock()
 			cond.Broadcast()
 		}
+	}
+	if os.Getenv("EXPLORE_DEBUG") != "" {
+		go func() {
+			for {
+				time.Sleep(3 * time.Second)
+				mu.Lock()
+				fmt.Printf("DEBUG %s: execs=%d queue=%d pending=%d\n", s.Name, st.Execs, len(queue), pending)
+				mu.Unlock()
+			}
+		}()
 	}
 	var wg sync.WaitGroup
 	for i := 0; i < workers; i++ {
